@@ -17,9 +17,12 @@ range) are modelled by `u16`.
 
 The calendar (civil date of a day number) enters only through `Cal`: five functions on day numbers
 (days since 1970-01-01, UTC). The theorems assume `Cal.OkAt` for the day of the source family;
-`stdCal` is the executable proleptic Gregorian instance used by the driver, which checks
-`Cal.okAtB` on every configuration line (the general validity of `stdCal` is C13's subject).
+`stdCal` is the proleptic Gregorian instance built from C13's Model/Calendar.lean and used by the
+driver; `Cal.OkAt stdCal d` is proved for every day in Lemmas/C04Calendar.lean from C13's theorems
+(the driver still evaluates `Cal.okAtB` on every configuration line).
 -/
+import LinVerif.Model.Calendar
+
 namespace LinVerif.Rollup
 
 /-! ## A. slot arithmetic -/
@@ -143,36 +146,20 @@ def mkR (c : Cal) (src tgt srcSegTime fTime : Int) : R :=
   let l := locate c src tgt srcSegTime fTime
   { source := src, target := tgt, sourceFTime := l.srcFamStart, targetFTime := l.tFamStart }
 
-/-! ### executable proleptic Gregorian calendar (days ↔ civil), for the driver -/
+/-! ### the proleptic Gregorian calendar of Model/Calendar.lean (C13) as a `Cal` -/
 
-/-- (year, month, day) of day number `z` (days since 1970-01-01) -/
-def civilFromDays (z : Int) : Int × Int × Int :=
-  let z := z + 719468
-  let era := z / 146097
-  let doe := z - era * 146097
-  let yoe := (doe - doe / 1460 + doe / 36524 - doe / 146096) / 365
-  let y := yoe + era * 400
-  let doy := doe - (365 * yoe + yoe / 4 - yoe / 100)
-  let mp := (5 * doy + 2) / 153
-  let d := doy - (153 * mp + 2) / 5 + 1
-  let m := if mp < 10 then mp + 3 else mp - 9
-  (if m ≤ 2 then y + 1 else y, m, d)
-
-def daysFromCivil (y m d : Int) : Int :=
-  let y := if m ≤ 2 then y - 1 else y
-  let era := y / 400
-  let yoe := y - era * 400
-  let doy := (153 * (if m > 2 then m - 3 else m + 9) + 2) / 5 + d - 1
-  let doe := yoe * 365 + yoe / 4 - yoe / 100 + doy
-  era * 146097 + doe - 719468
-
+open LinVerif.Calendar in
+/-- `stdCal`: the calendar functions in terms of C13's `civilFromDays` / `daysFromCivil` /
+`dateDays` (`time.Unix(..).Date()`, `time.Date(..)` in UTC). `Cal.OkAt stdCal d` holds for every
+day (Lemmas/C04Calendar.lean, from C13's round-trip theorems). -/
 def stdCal : Cal where
-  monthStart := fun d => let (y, m, _) := civilFromDays d; daysFromCivil y m 1
-  monthNext := fun d => let (y, m, _) := civilFromDays d
-    if m = 12 then daysFromCivil (y + 1) 1 1 else daysFromCivil y (m + 1) 1
-  yearStart := fun d => let (y, _, _) := civilFromDays d; daysFromCivil y 1 1
+  monthStart := fun d => daysFromCivil (civilFromDays d).1 (civilFromDays d).2.1 1
+  monthNext := fun d =>
+    let n := nextMonth (civilFromDays d).1 (civilFromDays d).2.1
+    daysFromCivil n.1 n.2 1
+  yearStart := fun d => daysFromCivil (civilFromDays d).1 1 1
   monthNo := fun d => (civilFromDays d).2.1
-  monthStartIn := fun d f => let (y, _, _) := civilFromDays d; daysFromCivil y f 1
+  monthStartIn := fun d f => dateDays (civilFromDays d).1 f 1
 
 /-! ## B. down-sampling merge -/
 
